@@ -10,6 +10,11 @@ value of a variable is a set of tags describing how it may be related to the roo
   FT  a fresh sibling of the root sharing its elements (tape.copy(), QuantumScript(tape.operations, …))
   FL  a fresh container whose elements are owned elements (list(tape.operations), tape.circuit …)
   CT  a fresh container that holds the root itself ([tape], (tape,))
+  D   a datum (gate parameter / coefficient) of an owned element: for array-valued parameters a mutable ndarray
+      that the input shares, so ``x += …`` / ``x[i] = …`` on it edits the input in place
+  DL  a fresh container whose elements are such data (op.parameters, op.data, obs.terms()[0], tape.get_parameters())
+  DH:<field> / DHC:<field>  an instance of a repository dataclass whose <field> was built from a DL value, and a dict
+      holding such instances (the bookkeeping records transforms keep per measurement)
 
 ``if`` joins both arms, loops iterate to a fixpoint, ``try`` joins handler entries, nested functions
 (the post-processing closures) are analysed with the final environment of the enclosing function.
@@ -31,6 +36,8 @@ from .core import norm
 from .index import ClassInfo, FuncInfo
 
 T, L, E, I, FT, FL, CT = "T", "L", "E", "I", "FT", "FL", "CT"
+D, DL = "D", "DL"
+ARRAY_MUT = {"fill", "sort", "itemset", "resize", "put", "partition", "setfield", "__setitem__", "__iadd__", "__imul__", "__isub__"}
 LIST_MUT = {"append", "extend", "insert", "pop", "remove", "clear", "sort", "reverse", "__setitem__", "__delitem__", "__iadd__"}
 DICT_MUT = {"update", "pop", "popitem", "setdefault", "clear", "__setitem__", "__delitem__"}
 SET_MUT = {"add", "discard", "remove", "update", "clear", "pop"}
@@ -55,12 +62,17 @@ class Spec:
     root_classes: frozenset = frozenset()  # constructor names producing FT when fed root parts
     elem_mutating_methods: frozenset = frozenset()
     share_attrs: frozenset = frozenset()  # sibling.attr = <owned container of the root> makes the two objects share it
+    elem_data_attrs: frozenset = frozenset()  # elem.attr -> DL (fresh container of the element's parameter values)
+    elem_datum_attrs: frozenset = frozenset()  # elem.attr -> D (one parameter value)
+    elem_terms_methods: frozenset = frozenset()  # elem.m() -> (DL, FL)
+    root_data_attrs: frozenset = frozenset()  # root.attr -> DL
+    root_data_methods: frozenset = frozenset()  # root.m() -> DL
 
 
 TAPE_SPEC = Spec(
     name="tape",
     alias_attrs=frozenset({"operations", "measurements", "_ops", "_measurements", "trainable_params", "_trainable_params"}),
-    fresh_attrs=frozenset({"circuit", "observables", "diagonalizing_gates", "obs_sharing_wires", "obs_sharing_wires_id", "par_info", "data"}),
+    fresh_attrs=frozenset({"circuit", "observables", "diagonalizing_gates", "obs_sharing_wires", "obs_sharing_wires_id", "par_info"}),
     elem_internal_attrs=frozenset({"hyperparameters", "_hyperparameters", "__dict__"}),
     elem_sub_attrs=frozenset({"base", "obs", "mv", "then_op", "lcu"}),
     elem_subs_attrs=frozenset({"operands", "ops", "overlapping_ops"}),
@@ -74,6 +86,13 @@ TAPE_SPEC = Spec(
     elem_cache_attrs=frozenset({"_batch_size", "_ndim_params", "_pauli_rep_cache", "_grouping_indices", "tracer"}),
     root_classes=frozenset({"QuantumScript", "QuantumTape", "OperationRecorder"}),
     elem_mutating_methods=frozenset(),
+    # Operator.parameters = list(self.data); Operator.data is the stored tuple; SProd.scalar is data[0];
+    # LinearCombination.coeffs / terms()[0] hand out the stored coefficient objects (read in operation.py / op_math)
+    elem_data_attrs=frozenset({"parameters", "data", "coeffs"}),
+    elem_datum_attrs=frozenset({"scalar"}),
+    elem_terms_methods=frozenset({"terms"}),
+    root_data_attrs=frozenset({"data"}),
+    root_data_methods=frozenset({"get_parameters"}),
 )
 
 
@@ -120,6 +139,11 @@ def _elem_of(tags):
         out.add(T)
     if I in tags:
         out |= {E, I}
+    if DL in tags:
+        out.add(D)
+    for t in tags:
+        if t.startswith("DHC:"):
+            out.add("DH:" + t[4:])
     return frozenset(out)
 
 
@@ -129,6 +153,8 @@ def _container_of(elem_tags):
         out.add(CT)
     if E in elem_tags or FL in elem_tags or L in elem_tags:
         out.add(FL)
+    if D in elem_tags:
+        out.add(DL)
     return frozenset(out)
 
 
@@ -144,6 +170,25 @@ class Engine:
         self._in_progress = set()
         self.stats = {"functions_analysed": 0, "summaries": 0, "depth_cuts": 0, "calls_resolved": 0, "calls_unresolved": 0}
         self.functions_seen = set()
+        self._sd = None
+
+    def registered_impls(self, g: FuncInfo):
+        """implementations attached to a ``functools.singledispatch`` function with ``@g.register`` (any module)"""
+        if self._sd is None:
+            self._sd = {}
+            for f in self.ix.functions:
+                if f.cls is not None:
+                    continue
+                for d in f.node.decorator_list:
+                    tgt = d.func if isinstance(d, ast.Call) else d
+                    if isinstance(tgt, ast.Attribute) and tgt.attr == "register":
+                        try:
+                            r = self.ix.resolve_expr(f.module, tgt.value)
+                        except RecursionError:
+                            r = None
+                        if isinstance(r, FuncInfo):
+                            self._sd.setdefault(id(r.node), []).append(f)
+        return self._sd.get(id(g.node), [])
 
     # ---------------------------------------------------------------------------------------
     def analyse(self, f: FuncInfo, init_env: dict, depth=None, chain=()):
@@ -305,6 +350,10 @@ class _Run:
                 cur = env.get(tgt.id, frozenset())
                 if isinstance(st.op, ast.Add) and (L in cur or I in cur):
                     self.sink(st, "aug-assign", f"`{tgt.id} += …` extends in place a container owned by the input {self.spec.name}")
+                if D in cur:
+                    self.sink(st, "aug-datum", f"`{norm(st)[:60]}` is an in-place update of `{tgt.id}`, which may be a parameter value of an operator "
+                                               f"owned by the input {self.spec.name} (for an array-valued parameter the input's own array is changed)")
+                    env[tgt.id] = cur - {D}
                 if isinstance(st.op, ast.Add) and (vt & {E, FL, L}) and not (cur & {L}):
                     env[tgt.id] = cur | {FL}
             else:
@@ -487,6 +536,8 @@ class _Run:
                 self.sink(st, "elem-attr-store", f"assigns attribute `{target.attr}` of an operator/measurement owned by the input {sp.name}")
             if I in bt:
                 self.sink(st, "internal-store", f"assigns into internals of an operator owned by the input {sp.name}")
+            if D in bt and not aug:
+                self.sink(st, "datum-attr-store", f"assigns attribute `{target.attr}` of `{norm(target.value)}`, which may be a parameter value owned by the input {sp.name}")
         elif isinstance(target, ast.Subscript):
             bt = self.eval(target.value, env)
             self.eval(target.slice, env)
@@ -494,6 +545,15 @@ class _Run:
                 self.sink(st, "item-store", f"assigns an item of a list owned by the input {sp.name} (obtained by reference, not copied)")
             if I in bt:
                 self.sink(st, "internal-store", f"assigns into `{norm(target.value)}`, a mutable internal of an operator owned by the input {sp.name}")
+            if D in bt:
+                self.sink(st, "datum-item-store", f"writes into `{norm(target.value)}`, which may be an array-valued parameter of an operator owned by the input {sp.name}")
+            if aug and DL in bt and not isinstance(target.slice, ast.Slice):
+                self.sink(st, "aug-datum", f"`{norm(st)[:80]}` updates in place an element of `{norm(target.value)}`; the element may be a parameter value "
+                                           f"(coefficient) owned by the input {sp.name}: for an array-valued parameter the input's own array is changed")
+            if not aug and isinstance(target.value, ast.Name):
+                dh = {"DHC:" + t[3:] for t in value_tags if t.startswith("DH:")}
+                if dh:
+                    env[target.value.id] = env.get(target.value.id, frozenset()) | dh
 
     def bind_target(self, target, elem_tags, env):
         """bind loop / comprehension targets; elem_tags is a frozenset or ('tuple', [..])"""
@@ -550,6 +610,14 @@ class _Run:
                     out.add(E)
                 elif e.attr in sp.elem_subs_attrs:
                     out.add(FL)
+                elif e.attr in sp.elem_data_attrs:
+                    out.add(DL)
+                elif e.attr in sp.elem_datum_attrs:
+                    out.add(D)
+            if bt & {T, FT} and e.attr in sp.root_data_attrs:
+                out.add(DL)
+            if ("DH:" + e.attr) in bt:
+                out.add(DL)
             return frozenset(out)
         if isinstance(e, ast.Subscript):
             bt = self.eval(e.value, env)
@@ -560,6 +628,8 @@ class _Run:
                     out.add(FL)
                 if CT in bt:
                     out.add(CT)
+                if DL in bt:
+                    out.add(DL)
                 return frozenset(out)
             return _elem_of(bt)
         if isinstance(e, ast.Call):
@@ -612,6 +682,8 @@ class _Run:
                     out.add(FL)
                 if (a | b) & {CT}:
                     out.add(CT)
+                if isinstance(e.op, ast.Add) and (a & {DL}) and (b & {DL} or isinstance(e.right, (ast.List, ast.Tuple))):
+                    out.add(DL)  # list concatenation keeps the element objects
                 return frozenset(out)
             return frozenset()
         if isinstance(e, ast.UnaryOp):
@@ -670,7 +742,24 @@ class _Run:
                     self.sink(c, "root-method", f"`{m}()` modifies the input {sp.name} in place")
                 if E in rt and m in sp.elem_mutating_methods:
                     self.sink(c, "elem-method", f"`{m}()` modifies an operator owned by the input {sp.name} in place")
+                if D in rt and m in ARRAY_MUT:
+                    self.sink(c, "datum-method", f"`{norm(fn.value)}.{m}(…)` changes in place a value that may be an array-valued parameter owned by the input {sp.name}")
                 out = set()
+                if E in rt and m in sp.elem_terms_methods and not c.args:
+                    self._call_positions[id(c)] = [frozenset({DL}), frozenset({FL})]
+                    out |= {DL, FL}
+                if rt & {T, FT} and m in sp.root_data_methods:
+                    out.add(DL)
+                if DL in rt and m == "copy":
+                    out.add(DL)
+                if DL in rt and m in ("pop", "__getitem__"):
+                    out.add(D)
+                for t_ in rt:
+                    if t_.startswith("DHC:"):
+                        if m in ("get", "pop", "setdefault"):
+                            out.add("DH:" + t_[4:])
+                        elif m in ("values", "copy"):
+                            out.add(t_)
                 if rt & {T, FT}:
                     if m in sp.copy_methods:
                         out.add(FT)
@@ -732,6 +821,8 @@ class _Run:
                         out.add(CT)
                     if I in t_:
                         out.add(FL)
+                    if DL in t_:
+                        out.add(DL)
                 return frozenset(out)
             if name == "copy" or cn == "copy.copy":
                 return self.copy_of(argt[0] if argt else frozenset())
@@ -773,11 +864,25 @@ class _Run:
             out.add(FL)
         if CT in t_:
             out.add(CT)
+        if DL in t_:
+            out.add(DL)
         return frozenset(out)
 
     def ctor(self, cls: ClassInfo, argt, kwt):
         if cls.name in self.spec.root_classes or any(b.name in self.spec.root_classes for b in cls.mro()):
             return frozenset({FT})
+        # a repository dataclass / NamedTuple record built from a list of parameter values keeps that list
+        if any(norm(d).split("(")[0].split(".")[-1] == "dataclass" for d in cls.node.decorator_list) or any(
+                norm(b).split(".")[-1] == "NamedTuple" for b in cls.node.bases):
+            fields = [s_.target.id for s_ in cls.node.body if isinstance(s_, ast.AnnAssign) and isinstance(s_.target, ast.Name)]
+            out = set()
+            for i, t_ in enumerate(argt):
+                if DL in t_ and i < len(fields):
+                    out.add("DH:" + fields[i])
+            for k, t_ in kwt.items():
+                if DL in t_ and k in fields:
+                    out.add("DH:" + k)
+            return frozenset(out)
         return frozenset()
 
     def resolve_callee(self, fn):
@@ -791,6 +896,14 @@ class _Run:
 
     def call_summary(self, c, g: FuncInfo, argt, kwt, env, bound=False):
         """apply the summaries of ``g`` for every tracked argument; returns the result tags"""
+        self._call_positions.pop(id(c), None)
+        out = self._call_summary1(c, g, argt, kwt, env, bound)
+        if not bound:
+            for g2 in self.eng.registered_impls(g):
+                out |= self._call_summary1(c, g2, argt, kwt, env, bound)  # singledispatch: any registered overload may run
+        return out
+
+    def _call_summary1(self, c, g: FuncInfo, argt, kwt, env, bound=False):
         self.eng.stats["calls_resolved"] += 1
         a = g.node.args
         params = [x.arg for x in a.posonlyargs + a.args]
@@ -809,7 +922,7 @@ class _Run:
             if k in allp:
                 pairs.append((k, t_))
         for pname, t_ in pairs:
-            for tag in sorted(t_ & {T, L, E, I, CT, FL}):
+            for tag in sorted(t_ & {T, L, E, I, CT, FL, D, DL}):
                 if tag == FL:
                     # a fresh list of owned elements: the callee may mutate the list, not the elements
                     res = self.eng.summary(g, pname, FL, self.depth, self.chain)
@@ -827,8 +940,14 @@ class _Run:
                         positions = list(res.positions)
                     elif positions is not None:
                         positions = [a | b for a, b in zip(positions, res.positions)] if len(positions) == len(res.positions) else None
-        if isinstance(positions, list):
-            self._call_positions[id(c)] = positions
+        prev = self._call_positions.get(id(c), "unset")
+        if positions != "unset":
+            if prev == "unset":
+                self._call_positions[id(c)] = positions
+            elif isinstance(prev, list) and isinstance(positions, list) and len(prev) == len(positions):
+                self._call_positions[id(c)] = [a_ | b_ for a_, b_ in zip(prev, positions)]
+            else:
+                self._call_positions[id(c)] = None
         return frozenset(out)
 
 
